@@ -72,10 +72,12 @@ func main() {
 			sub := rand.New(rand.NewSource(cs))
 			emit(w, runDisplacePairs(genDisplaceCase(sub, i, cs), sub))
 		}
-	case "curry", "saveto", "filler":
+	case "curry", "saveto", "filler", "postact":
 		rng := rand.New(rand.NewSource(*seed))
 		var lines []string
 		switch cmd {
+		case "postact":
+			lines = runPostAct(rng, *n)
 		case "curry":
 			lines = runCurry(rng, *n)
 		case "saveto":
@@ -198,4 +200,5 @@ var profiles = map[string]Profile{
 	"plain":   plainProfile,
 	"memo":    memoProfile,
 	"reorder": reorderProfile,
+	"cluster": clusterProfile,
 }
